@@ -115,6 +115,36 @@ def run(rep, tier, seed, model_ok=True, effort=1):
                                                    ";".join(cs(x) for x in impl_dirty), cb(impl_abort)))
             meta.append(dict(status_text=status_text, allow_dirty=allow_dirty, impl_dirty=impl_dirty))
             rep.sample(dict(status=kind, file=target, allow_dirty=allow_dirty, git_status=status_text, exit=code), limit=10)
+    # many dirty files at once: the pattern file is the LAST of 14 entries git reports (sorted by path); --allow-dirty must still abort,
+    # and with only the 13 unrelated ones dirty it must go through
+    for pattern_dirty in (True, False):
+        prj = project.TempProject("MAJOR.MINOR.PATCH", "1.2.3", files={"zz_version.txt": ["ver = {version}"]},
+                                  contents=dict(("docs/page%02d.md" % k, "page %d\n" % k) for k in range(13)), commit=True, tag=False, push=False, vcs="git")
+        with prj:
+            for k in range(13):
+                open(prj.path("docs/page%02d.md" % k), "a").write("work in progress\n")
+            if pattern_dirty:
+                open(prj.path("zz_version.txt"), "a").write("uncommitted note\n")
+            status_text = prj.git("status", "--porcelain")
+            commits_before = len(prj.git("log", "--oneline").splitlines())
+            before = prj.snapshot()
+            args = ["update", "--patch", "--no-fetch", "--commit", "--allow-dirty"]
+            code, out, logs, exc = prj.run(impl, args)
+            after = prj.snapshot()
+            commits_after = len(prj.git("log", "--oneline").splitlines())
+            rep.case(("many-dirty", pattern_dirty), nontrivial=True)
+            inp = dict(status="14 modified files, pattern file last" if pattern_dirty else "13 modified unrelated files", allow_dirty=True,
+                       git_status=status_text, args=args, exit=code, logs=logs[-3:])
+            if pattern_dirty and (code == 0 or commits_after != commits_before or after != before):
+                rep.violation("update proceeded although zz_version.txt (a pattern file) is modified-unstaged", input=inp, **{"class": "dirty-not-blocked"})
+            if not pattern_dirty:
+                if code != 0:
+                    rep.violation("update was blocked although only unrelated files are dirty and --allow-dirty is given", input=inp, **{"class": "blocked-wrongly"})
+                else:
+                    stat = prj.git("show", "--stat", "--format=", "HEAD")
+                    files = sorted(l.split("|")[0].strip() for l in stat.splitlines() if "|" in l)
+                    if files != ["bumpver.toml", "zz_version.txt"]:
+                        rep.violation("the bump commit contains other files than the configured ones: %s" % files, input=inp, **{"class": "swept-in"})
     # synthetic porcelain lines (all XY codes) for the parser correspondence
     xy = ["  ", " M", "M ", "MM", "A ", "AM", " D", "D ", "R ", "RM", "C ", "??", "!!", "UU", "AA", " T"]
     for a, b in itertools.product(xy, repeat=2):
